@@ -2,7 +2,7 @@
 from . import ipgen
 
 COQ_DEPS = ["lib/PPCore.v", "lib/PPHost.v", "lib/Memo.v", "lib/MemoProofs.v"]
-MODEL_DEPS = COQ_DEPS + ["lib/Md5.v", "lib/Str.v", "lib/Mask.v", "gen/G_ip_consts.v", "model/IpModel.v", "model/DriverIp.v", "model/Driver.v", "model/Extract.v", "lib/PyLib.v", "gen/G_fn_ip.v", "model/DriverFn.v"]
+MODEL_DEPS = COQ_DEPS + ["lib/Md5.v", "lib/Str.v", "lib/Mask.v", "gen/G_ip_consts.v", "model/IpModel.v", "model/DriverIp.v", "model/Driver.v", "model/Extract.v", "lib/PyLib.v", "lib/PyHash.v", "gen/G_fn_ip.v", "model/DriverFn.v"]
 TRUSTED_BASE = [
     "Coq 8.16.1 kernel (coqc); vm_compute used only in the non-vacuity Example",
     "axioms: none (Print Assumptions: Closed under the global context for every theorem)",
